@@ -120,6 +120,12 @@ class Hooks(Harness):
         text, exp = self.label(x)
         P, classes = self.build(L, True)
         P0, _ = self.build(L, False)
+        if getattr(self, "order", "default-first") == "default-first":
+            # a default-configured parser is used first: anything cached beyond the instance would show
+            try:
+                P0.parse(text)
+            except (L.exceptions.LexerError, L.exceptions.ParseError):
+                pass
         try:
             m = P.parse(text)
         except (L.exceptions.LexerError, L.exceptions.ParseError) as e:
@@ -204,6 +210,7 @@ def obligations(tier):
         for w in ("top", "seq", "set", "nested", "quantity", "seqquantity", "blocks"):
             for sh in shapes:
                 obs.append(Hooks(dialect=d, where=w, shape=sh))
+            obs.append(Hooks(dialect=d, where=w, shape=shapes[0], order="substitutes-first"))
     return obs
 
 
